@@ -265,7 +265,14 @@ def replay(ctx: Ctx, rec: dict) -> int:
         evs = [_eval_job((b["reg"], b["exs"], b["trace"], b["palette"]))]
     verdicts = ctx.validate("FitnessTrace", [{"ev": [ev]} for ev in evs])
     print("replayed event:", json.dumps(evs[0])[:2000])
-    bad = sorted({c for v in verdicts.values() for c, _ in v if c not in DRIFT})
+    from harness.core import load_findings
+    known = load_findings()
+    bad = []
+    for c in sorted({c for v in verdicts.values() for c, _ in v if c not in DRIFT}):
+        if f"C10/{c}" in known:
+            print(f"KNOWN-FINDING: property=C10 C10/{c}")
+        else:
+            bad.append(c)
     if bad:
         print(f"VIOLATION property=C10 replay=(this) clauses={bad}")
         return 1
